@@ -24,6 +24,7 @@ type Spec struct {
 	Folder   string `json:"folder,omitempty"`
 	Unread   bool   `json:"unread,omitempty"`
 	Rejected bool   `json:"rejected,omitempty"`
+	Ext      string `json:"ext,omitempty"` // set_unread: spelling of the stored file's extension (default ".b2f")
 }
 
 // Result mirrors cmd/mboxop.Result plus what the parent saw of the process.
